@@ -1207,13 +1207,14 @@ let max_seq (es : (ikey * n list) list) : n =
 
 (* events after an open / inside an operation -> protocol steps *)
 let installs_of (evs : string list) : pop list =
-  let ptrs = ref [] in
+  let ptrs = ref [] and recseq = ref None in
   List.concat_map
     (fun ev ->
       let args = brackets ev in
       match ev.[0], args with
       | 'N', _ -> [ QRotate ]
-      | 'L', [ _; _; _; p ] ->
+      | 'L', _ :: _ :: _ :: p :: more ->
+          (match more with [ sq ] when sq <> "-" -> recseq := Some (n_of_string sq) | _ -> recseq := None);
           ptrs := List.map (fun x -> match String.index_opt x '@' with
                      | Some i -> (n_of_string (String.sub x 0 i), parse_ikey (String.sub x (i + 1) (String.length x - i - 1)))
                      | None -> failwith "ptr") (split_nonempty ';' p);
@@ -1221,7 +1222,9 @@ let installs_of (evs : string list) : pop list =
       | 'I', [ del; add; seq ] ->
           let dels = List.map (fun d -> match String.split_on_char ':' d with [ l; nn ] -> (n_of_string l, n_of_string nn) | _ -> failwith "del") (split_nonempty ';' del) in
           let adds = parse_adds add in
-          let q = n_of_string seq in
+          (* the sequence number the record carries was fixed before the manifest append *)
+          let q = match !recseq with Some x -> x | None -> n_of_string seq in
+          recseq := None;
           let p = !ptrs in
           ptrs := [];
           if dels = [] then
@@ -1354,6 +1357,54 @@ let suite_wfault (line : string) : string =
         (match f_reopen s with Some m -> show_pairs m | None -> "open-err")
   | _ -> failwith "bad wfault case"
 
+(* ---------- suite: tfile (table file layout: block trailers, handles, footer) ---------- *)
+let suite_tfile (line : string) : string =
+  (* <id> x<file> <m_off>:<m_size>,<i_off>:<i_size> <off:size;...> <off:newb:open:bits> ... *)
+  match split_nonempty ' ' line with
+  | id :: file :: foot :: blocks :: muts ->
+      let file = parse_bytes file in
+      let hp s = match String.split_on_char ':' s with [ a; b ] -> { h_off = n_of_string a; h_size = n_of_string b } | _ -> failwith "handle" in
+      let mh, ih = match String.split_on_char ',' foot with [ a; b ] -> (hp a, hp b) | _ -> failwith "footer" in
+      let bl = if blocks = "-" then [] else List.map hp (String.split_on_char ';' blocks) in
+      let ok_block f h = match read_block_at f h with BOk (_, _) -> true | _ -> false in
+      let problems = ref [] in
+      let complain m = if List.length !problems < 3 then problems := m :: !problems in
+      (* the unchanged file: footer decodes to the reported handles and re-encodes to its last 48
+         bytes; every block passes the check *)
+      (match file_footer file with
+       | Some (m, i) ->
+           if m <> mh || i <> ih then complain "footer handles differ from the reader's";
+           let n = List.length file in
+           let tail = List.filteri (fun k _ -> k >= n - 48) file in
+           if footer_encode m i <> tail then complain "footer_encode differs from the last 48 bytes"
+       | None -> complain "model cannot decode the footer");
+      List.iter (fun h -> if not (ok_block file h) then complain (Printf.sprintf "block at %s fails the model's check" (string_of_n h.h_off))) (mh :: ih :: bl);
+      let nm = ref 0 in
+      List.iter
+        (fun mu ->
+          if mu <> "-" then
+            match String.split_on_char ':' mu with
+            | [ off; nb; op; bits ] ->
+                incr nm;
+                let f' = update_at (nat_of_int (int_of_string off)) (n_of_int (int_of_string nb)) file in
+                let model_open, same =
+                  match file_footer f' with
+                  | Some (m, i) -> (ok_block f' i && ok_block f' m, m = mh && i = ih)
+                  | None -> (false, false) in
+                if model_open <> (op = "1") then
+                  complain (Printf.sprintf "byte %s := %s: open %s in the implementation, %s in the model" off nb op (if model_open then "1" else "0"))
+                else if model_open && same && bits <> "-" then
+                  List.iteri (fun k h ->
+                    let mb = ok_block f' h in
+                    if k < String.length bits && (bits.[k] = '1') <> mb then
+                      complain (Printf.sprintf "byte %s := %s: block %d readable=%c in the implementation, %b in the model" off nb k bits.[k] mb)) bl
+            | _ -> failwith "mutation")
+        muts;
+      Printf.sprintf "%s %s blocks=%d mutations=%d" id
+        (if !problems = [] then "ok" else "DIFF:" ^ String.concat ";;" (List.rev_map (fun x -> String.map (fun c -> if c = ' ' then '_' else c) x) !problems))
+        (List.length bl) !nm
+  | _ -> failwith "bad tfile case"
+
 let () =
   let suite = Sys.argv.(1) in
   let f =
@@ -1379,6 +1430,7 @@ let () =
     | "recover" -> suite_recover
     | "proto" -> suite_proto
     | "wfault" -> suite_wfault
+    | "tfile" -> suite_tfile
     | _ -> failwith ("unknown suite " ^ suite)
   in
   try
